@@ -11,6 +11,7 @@ UNITS = {
     type_rules=[(r'::Handle_?$', 'wp', 'Handle')],
     env_calls={'canContinueInvoking': 'canContinueInvoking'},
     ghost_sig=[('Node *', 'gK'), ('Node *', 'gW')],
+    exc_edges=True,
     field_hooks={'Node.counter': 'NODE_SET_counter'},
     split_loops={'CL_doForEachIf__forEachIf__UserEachIf__lambda0': [0], 'CL_doForEachIf__forEach__UserEach__lambda0': [0],
                  'CL_doForEachIf__forEachIf__call__lambda0__lambda0': [0], 'CL_ownsHandle': [0], 'CL_doFreeAllNodes': [0],
@@ -34,6 +35,7 @@ UNITS['queue'] = dict(
     env_calls={'getEvent': 'Pol_getEvent'},
     tuple_ctor=['ArgsTuple'],
     fn_tag_default='QueuedEvent',
+    exc_edges=True,
     atomic_field_hooks={'Q.queueNotifyCounter': 'NOTIFYCNT'},
     type_rules=[
       (r'^std::condition_variable$', 'condvar', 'CondVar'),
